@@ -1117,7 +1117,17 @@ func (ra *ringAbs) fixpoint(fn *ssa.Function, qv ssa.Value, entry *rstate, check
 				continue
 			}
 			if old != nil && visits[sc] > 8 {
-				ra.widen(old, acc)
+				// widening belongs at loop heads only: a block inside the loop gets its state from the head through
+				// the loop test, and widening it again would throw the bound that test gave away (i < n ⇒ i ≤ L−1)
+				head := false
+				for _, p := range sc.Preds {
+					if sc.Dominates(p) {
+						head = true
+					}
+				}
+				if head || visits[sc] > 40 {
+					ra.widen(old, acc)
+				}
 			}
 			in[sc] = acc
 			if !queued[sc] {
